@@ -7,7 +7,9 @@ def run(ctx):
     progs = ["s01_step_wait_retry", "s02_amo_retry_caughtfail", "s06_amo_three_attempts", "s10_uncaught_failure", "s14_amo_exhaust",
              "s18_wfcb_retry_submit",
              {"nodes": [{"k": "step", "fail": 2, "max": 3, "strategy": "pkg", "delay": 2}, {"k": "step", "fail": -1, "max": 2, "strategy": "pkg", "caught": True}]},
-             {"nodes": [{"k": "step", "fail": 1, "max": 1, "caught": True}, {"k": "step", "fail": 3, "max": 3, "caught": True}]}]
+             {"nodes": [{"k": "step", "fail": 1, "max": 1, "caught": True}, {"k": "step", "fail": 3, "max": 3, "caught": True}]},
+             # user strategies that ask for a zero / sub-second delay: the recorded delay must still be >= 1 s
+             {"nodes": [{"k": "step", "fail": 1, "max": 2, "delay": 0}, {"k": "step", "sem": "AMO", "fail": 2, "max": 3, "delay": 0.4}]}]
     run_durable(ctx, model=["s01_step_wait_retry", "s06_amo_three_attempts", "s10_uncaught_failure", "s14_amo_exhaust"],
                 programs=progs, oracle_fns=[oracles.c12],
                 gen_kw={"kinds": ["step", "step", "step", "wait", "child"]},
